@@ -156,6 +156,10 @@ func c02Units(tier string) []Unit {
 				decos: []*uFunc{dA}, invokes: []*uFunc{iA, iB, iC}}, d, explore.Budget{Provides: 3, Decorates: 1, Invokes: inv, Rejected: 0})
 		}
 	}
+	// a member provided to a group after its decorator ran: the decorator has
+	// run, and stays the one run
+	add("late-feeder-of-decorated-group", h.Config{}, nil, prefixChild, alpha{scopes: []int{0, 1}, ctors: []*uFunc{fG1, fG1b}, export: true,
+		decos: []*uFunc{dG}, invokes: []*uFunc{iG}}, 5, explore.Budget{Provides: 2, Decorates: 1, Invokes: 2, Rejected: 0})
 	// two constructors whose As lists overlap on a key that is not the first of
 	// the second list (the second must be rejected; if it is not, the shared
 	// key changes instance as the constructors are built one after the other)
@@ -286,6 +290,10 @@ func c04Units(tier string) []Unit {
 		// below optional edges (§3.6-3: definite where dig's behaviour is)
 		add("decorated-unprovided"+tag, cfg, nil, prefixChild, alpha{scopes: scopes2, ctors: []*uFunc{pA, pB, pCob},
 			decos: []*uFunc{dA, dA0}, invokes: []*uFunc{iA, iAo, iB, iBo, iCo}}, d, explore.Budget{Provides: 2, Decorates: 2, Invokes: 2, Rejected: 0})
+		// parameter objects with `ignore-unexported:"true"` whose unexported field
+		// comes before the embed / before the exported fields
+		add("ignore-unexported-layouts"+tag, cfg, nil, prefixChild, alpha{scopes: scopes2, ctors: []*uFunc{pA, pBux4, pBux5},
+			invokes: []*uFunc{iAux4, iAux5, iB}}, 4, explore.Budget{Provides: 2, Invokes: 2, Rejected: 0})
 		// a named value under two As interfaces, consumed by name (required,
 		// optional, below a constructor) and — wrongly — without the name
 		add("named-as"+tag, cfg, nil, prefixChild, alpha{scopes: scopes2, ctors: []*uFunc{kAnAsII, pCiin}, export: !q,
@@ -344,6 +352,8 @@ func c08Units(tier string) []Unit {
 		// provider, at every level of a chain, with Export
 		add("optional-consumers"+tag, cfg, nil, prefixChain, alpha{scopes: []int{0, 1, 2}, ctors: []*uFunc{pA, pBo}, export: true,
 			invokes: []*uFunc{iAo, iBo, iB}}, 4, explore.Budget{Provides: 2, Invokes: 2, Rejected: 0})
+		add("optional-over-unbuildable-nearest"+tag, cfg, nil, prefixChain, alpha{scopes: []int{0, 1, 2}, ctors: []*uFunc{pA, pAd, pBo},
+			invokes: []*uFunc{iAo, iBo}}, 4, explore.Budget{Provides: 3, Invokes: 1, Rejected: 0})
 		// exported constructors with group / optional / nested-object
 		// parameters, registered before and after others that depend on them:
 		// accepted from, and usable in, every scope
@@ -400,6 +410,8 @@ func c10Units(tier string) []Unit {
 		add(name+"/feeder-needs-group", h.Config{}, nil, pre, alpha{scopes: []int{0, 1, 2}, ctors: []*uFunc{fGH, fH, fHb}, export: true,
 			invokes: []*uFunc{iG}}, 4, bd)
 	}
+	add("rejected-feeder", h.Config{}, nil, prefixChild, alpha{scopes: []int{0, 1}, ctors: []*uFunc{pB0, pMgB, pMBg2, fG1}, export: true,
+		invokes: []*uFunc{iG, iB}}, 4, explore.Budget{Provides: 3, Invokes: 1, Rejected: 1})
 	add("flatten", h.Config{}, nil, prefixChild, alpha{scopes: []int{0, 1}, ctors: []*uFunc{fG1, fFl0, fFl1, fFl2, fFlo}, export: true,
 		invokes: []*uFunc{iG, iGG}}, d, b)
 	add("as", h.Config{}, nil, prefixChild, alpha{scopes: []int{0, 1}, ctors: []*uFunc{fG1, fAs, fAsII, fBg}, export: true,
@@ -590,4 +602,14 @@ var (
 	dGns  = u.F("dGns", "{A*g}", "{NS!1+g}") // group decorator returning the group as named slice NS
 	iGns  = u.F("iGns", "{A*g^NS}", "")
 	iGns2 = u.F("iGns2", "{A*g^NS2}", "")
+)
+
+var (
+	pBux4 = &u.Func{ID: "pBux4", Params: []u.Param{{Kind: u.PObject, Embed: 4, Fields: []u.Param{{Kind: u.PSingle, Type: "A"}}}}, Results: []u.Result{{Kind: u.RSingle, Type: "B"}}}
+	pBux5 = &u.Func{ID: "pBux5", Params: []u.Param{{Kind: u.PObject, Embed: 5, Fields: []u.Param{{Kind: u.PSingle, Type: "A", Optional: true}}}}, Results: []u.Result{{Kind: u.RSingle, Type: "B"}}}
+	iAux4 = &u.Func{ID: "iAux4", Params: []u.Param{{Kind: u.PObject, Embed: 4, Fields: []u.Param{{Kind: u.PSingle, Type: "A", Optional: true}}}}}
+	iAux5 = &u.Func{ID: "iAux5", Params: []u.Param{{Kind: u.PObject, Fields: []u.Param{{Kind: u.PObject, Embed: 5, Fields: []u.Param{{Kind: u.PSingle, Type: "A"}}}}}}}
+	pAd   = u.F("pAd", "D", "A")        // A whose dependency D nobody provides
+	pMgB  = u.F("pMgB", "", "{A+g;B}")  // a member of g declared before a plain B
+	pMBg2 = u.F("pMBg2", "", "{B;A+g}") // the same, B first
 )
